@@ -147,9 +147,10 @@ def fuzz(build, workers, runs, corpus, dic, max_len=256, max_time=600, **kw):
 
 def plan_c05(tier, seed):
     if tier == "quick":
-        return checks("main", 4, 20000) + checks("plain", 1, 2000) + fuzz("fuzz", 4, 400000, "corpus/C05", "dict/json.dict", max_time=60)
-    return (checks("main", 4, 300000) + checks("nohook_avx2", 1, 100000) + checks("plain", 1, 50000)
-            + fuzz("fuzz", 10, 12000000, "corpus/C05", "dict/json.dict", max_len=512, max_time=900))
+        return (checks("main", 4, 20000) + checks("plain", 1, 2000) + shards("main", "sizes", 4)
+                + fuzz("fuzz", 4, 400000, "corpus/C05", "dict/json.dict", max_time=60))
+    return (checks("main", 4, 300000) + checks("nohook_avx2", 1, 100000) + checks("plain", 1, 50000) + shards("main", "sizes", 4)
+            + shards("nohook_avx2", "sizes", 2) + fuzz("fuzz", 10, 12000000, "corpus/C05", "dict/json.dict", max_len=512, max_time=900))
 
 
 SPECS["C05"] = {
@@ -162,9 +163,13 @@ SPECS["C05"] = {
     "default_build": "main",
     "bin_build": "fuzz",
     "plan": plan_c05,
+    "exhaustive_enums": ["sizes"],
     "rule": ("(a) rapidcheck: RFC 8259 documents from the C06 generator with 1-4 generated mutations (truncate, delete, structural replacement, "
              "inserted NUL/unit, cut inside a token, duplicated slice, keyword followed by NULs, replace) and directed nesting classes "
              "('[', '{\"a\":', alternating; depth 1..512; closed / unclosed / half closed / wrong inner bracket), widths char/char16_t/char32_t/wchar_t; "
+             "and the size class, enumerated completely: valid (or cut one unit short) documents of 255 .. 2,097,153 units - one long string with an escape at "
+             "its start / middle / end as element, member value or key, arrays / objects with up to 70,000 members, number tokens of up to 120,000 digits "
+             "whose exponent compensates their length; "
              "(b) libFuzzer: byte 0 selects the width, the rest are code units (0xFF escapes an arbitrary wide unit), JSON dictionary, "
              "seed corpus on even workers and empty corpus on odd ones. Every input sits in an exact-size heap buffer without terminator. "
              "non-trivial = contains a structural character and is rejected, or is accepted with depth >= 2; distinct by input"),
